@@ -39,13 +39,14 @@ def check(ctx):
     push = [s for s in d.call_sites(r"Vec::push$") if render(d.site_expr(s)[2][0]) == "protocols"]
     ctx.floor("decode", "protocols.push", push, 1)
     for s in push:
-        ctx.guarded("decode", "list grows only below MAX_PROTOCOLS", s,
-                    lambda c, r, l: l == "false" and r == "Eq(std::vec::Vec::len(protocols), const:multistream_select::protocol::MAX_PROTOCOLS)", "protocols.len() != MAX_PROTOCOLS (unit increments from 0)")
+        lib.limit_guard(ctx, "decode", "list grows only below MAX_PROTOCOLS", s, r"^std::vec::Vec::len\(protocols\)$", r"^const:multistream_select::protocol::MAX_PROTOCOLS$",
+                        "protocols.len() < MAX_PROTOCOLS (unit increments from 0)", unit_increment=True)
     inits = [render(d.init_expr(k)) for k, v in d.names.items() if v == "protocols"]
     ctx.ob("decode", "list starts empty", inits == ["std::vec::Vec::new()"], msg=str(inits))
     tm = d.agg_sites(r"protocol::ProtocolError$", "TooManyProtocols")
     for s in tm:
-        ctx.guarded("decode", "TooManyProtocols exactly at the limit", s, lambda c, r, l: l == "true" and r.startswith("Eq(std::vec::Vec::len(protocols), const:"), "len == MAX_PROTOCOLS")
+        e = lib.at_limit_edges(d, r"^std::vec::Vec::len\(protocols\)$", r"^const:multistream_select::protocol::MAX_PROTOCOLS$")
+        ctx.ob("decode", "TooManyProtocols only at the limit", bool(e) and d.must_pass_edges(s.bb, e), s.loc(), "TooManyProtocols is returned only when len >= MAX_PROTOCOLS")
     # in-bounds guards for the ls branch
     tail_sites = [s for (b, k, det, s) in lib.panic_inventory(prog, MS, [d], depth=0)[0] if b is d and s.line >= (push[0].line - 8 if push else 0) and k in ("index", "assert:bounds", "slice")]
     ctx.floor("decode", "slice/index sites in the ls loop", tail_sites, 3)
